@@ -154,6 +154,11 @@ func TestVerifDump(t *testing.T) {
 		}{}, "tag_string": struct {
 			A bool `json:"nm,string"`
 		}{},
+		"omit_string": struct {
+			A string `json:"a,omitempty"`
+		}{}, "omit_bytes": struct {
+			A []byte `json:"a,omitempty"`
+		}{},
 		"omit_float64": struct {
 			A float64 `json:"a,omitempty"`
 		}{}, "omit_float32": struct {
